@@ -164,6 +164,7 @@ func iMutexLock(ex *Exec, st *State, fr *Frame, dst ssa.Value, args []Value) {
 	st.sset(k, 1)
 	st.setSideStr(k, st.thread().name)
 	st.held = append(append([]string(nil), st.held...), k)
+	ex.hbAcquire(st, k)
 	ex.ret(fr, dst, nil)
 }
 
@@ -176,6 +177,7 @@ func iMutexTryLock(ex *Exec, st *State, fr *Frame, dst ssa.Value, args []Value) 
 	st.sset(k, 1)
 	st.setSideStr(k, st.thread().name)
 	st.held = append(append([]string(nil), st.held...), k)
+	ex.hbAcquire(st, k)
 	ex.ret(fr, dst, tTrue)
 }
 
@@ -186,6 +188,7 @@ func iMutexUnlock(ex *Exec, st *State, fr *Frame, dst ssa.Value, args []Value) {
 		return
 	}
 	st.sset(k, 0)
+	ex.hbRelease(st, k, true)
 	var h []string
 	for _, x := range st.held {
 		if x != k {
@@ -219,6 +222,7 @@ func iWGDone(ex *Exec, st *State, fr *Frame, dst ssa.Value, args []Value) {
 		return
 	}
 	st.sset(k, n)
+	ex.hbRelease(st, k, true)
 	ex.ret(fr, dst, nil)
 }
 
@@ -228,6 +232,7 @@ func iWGWait(ex *Exec, st *State, fr *Frame, dst ssa.Value, args []Value) {
 		ex.block(st, fmt.Sprintf("WaitGroup.Wait(count=%d) at %s", st.sget(k), ex.sitePos(fr, fr.block.Instrs[fr.ip])))
 		return
 	}
+	ex.hbAcquire(st, k)
 	ex.ret(fr, dst, nil)
 }
 
@@ -252,12 +257,24 @@ func (ex *Exec) intrinsicReady(st *State, fr *Frame, c *ssa.Call) bool {
 func iOnceDo(ex *Exec, st *State, fr *Frame, dst ssa.Value, args []Value) {
 	k := "once:" + sideKey(args[0])
 	if st.sget(k) != 0 {
+		ex.hbAcquire(st, k)
 		ex.ret(fr, dst, nil)
 		return
 	}
 	st.sset(k, 1)
 	f := args[1].(*FuncV)
-	ex.pushCall(st, f.fn, nil, f.bind, nil)
+	if !ex.hbOn {
+		ex.pushCall(st, f.fn, nil, f.bind, nil)
+		return
+	}
+	// the completion of f happens before the return of every Do
+	ex.pushCall(st, f.fn, nil, f.bind, func(ex *Exec, s2 *State, res Value) {
+		ex.hbRelease(s2, k, true)
+		th := s2.thread()
+		if len(th.frames) > 0 {
+			th.frames[len(th.frames)-1].ip++
+		}
+	})
 }
 
 func fieldIndex(t types.Type, name string) int {
